@@ -22,6 +22,8 @@
 #include <morfuse/Script/ProgramScript.h>
 #include <morfuse/Script/StateScript.h>
 #include <morfuse/Script/Archiver.h>
+#include <morfuse/Script/Level.h>
+#include <morfuse/Script/Game.h>
 #include <morfuse/Common/membuf.h>
 #include <morfuse/Common/OutputInfo.h>
 #include "lineio.h"
@@ -40,7 +42,7 @@ uint64_t clockFn() { const uint64_t v = g_clock; g_clock += g_clockStep; return 
 
 std::ostringstream g_out, g_warn, g_dbg, g_err, g_verb;
 std::unique_ptr<ScriptContext> g_ctx;
-std::unique_ptr<Event> g_lastEvent;
+std::vector<std::pair<std::unique_ptr<Event>, size_t>> g_events;   // every host call record since the last reset, with its argument count
 std::string g_archive;
 bool g_streams[5] = { true, true, true, true, false }; // Output, Warn, Debug, Error, Verbose
 bool g_developer = true;
@@ -88,7 +90,7 @@ void attachStreams()
 
 void freshContext()
 {
-    g_lastEvent.reset();
+    g_events.clear();
     g_ctx.reset();
     g_clock = 0;
     EventSystem::Get();
@@ -144,14 +146,22 @@ std::string showValue(ScriptVariable& v)
     }
 }
 
-std::string lastResult()
+std::string resultOf(size_t k)
 {
-    if (!g_lastEvent) return "none";
-    const size_t n = g_lastEvent->NumArgs();
-    if (n == 0) return "none";
+    Event& ev = *g_events[k].first;
+    const size_t n = ev.NumArgs();
+    if (n <= g_events[k].second) return "none";
     // the result is the value appended by ScriptThread::Execute(Event&) after the arguments
-    ScriptVariable& v = g_lastEvent->GetValue(n);
+    ScriptVariable& v = ev.GetValue(n);
     return showValue(v);
+}
+
+std::string allResults()
+{
+    if (g_events.empty()) return "none";
+    std::string r;
+    for (size_t k = 0; k < g_events.size(); ++k) { if (k) r += ','; r += resultOf(k); }
+    return r;
 }
 
 std::string excKind(const std::exception& e)
@@ -170,7 +180,6 @@ int main()
     verif::now_ms = &clockFn;
     freshContext();
     std::vector<std::string> t;
-    size_t nargsOfLastCall = 0;
     while (readTokens(t)) {
         if (t.empty()) { say("bad-op"); continue; }
         const std::string& op = t[0];
@@ -185,22 +194,22 @@ int main()
                 const ProgramScript* s = g_ctx->GetDirector().GetProgramScript(t[1].c_str(), stream, true);
                 if (!s || !s->IsCompileSuccess()) status = "err CompileFailed";
             } else if (op == "call" && t.size() >= 3) {
-                g_lastEvent.reset(new Event);
+                std::unique_ptr<Event> ev(new Event);
                 for (size_t i = 3; i < t.size(); ++i) {
-                    if (t[i][0] == 'i') g_lastEvent->AddLong(std::stoll(t[i].substr(1)));
-                    else if (t[i][0] == 's') g_lastEvent->AddString(unhex(t[i].substr(1)).c_str());
-                    else g_lastEvent->AddNil();
+                    if (t[i][0] == 'i') ev->AddLong(std::stoll(t[i].substr(1)));
+                    else if (t[i][0] == 's') ev->AddString(unhex(t[i].substr(1)).c_str());
+                    else ev->AddNil();
                 }
-                nargsOfLastCall = t.size() - 3;
                 const ProgramScript* s = g_ctx->GetDirector().GetProgramScript(t[1].c_str());
-                if (t[2] == "-") g_ctx->GetDirector().ExecuteThread(s, *g_lastEvent);
-                else g_ctx->GetDirector().ExecuteThread(s, *g_lastEvent, t[2].c_str());
-                extra = " ret=" + (g_lastEvent->NumArgs() > nargsOfLastCall ? lastResult() : std::string("none"));
+                if (t[2] == "-") g_ctx->GetDirector().ExecuteThread(s, *ev);
+                else g_ctx->GetDirector().ExecuteThread(s, *ev, t[2].c_str());
+                g_events.emplace_back(std::move(ev), t.size() - 3);     // only successful calls leave a record
+                extra = " ret=" + resultOf(g_events.size() - 1);
             } else if (op == "callv" && t.size() == 3) {
                 const ProgramScript* s = g_ctx->GetDirector().GetProgramScript(t[1].c_str());
                 g_ctx->GetDirector().ExecuteThread(s, t[2].c_str());
             } else if (op == "thread-result") {
-                extra = " ret=" + (g_lastEvent && g_lastEvent->NumArgs() > nargsOfLastCall ? lastResult() : std::string("none"));
+                extra = " ret=" + allResults();
             } else if (op == "advance" && t.size() == 2) {
                 g_clock += std::stoull(t[1]);
             } else if (op == "execute") {
@@ -277,14 +286,15 @@ int main()
             } else if (op == "save") {
                 std::ostringstream os;
                 version_info_t info; info.header = "VRIF"; info.version = 1; info.archiveName = "verif";
-                { Archiver arc = Archiver::CreateWrite(os, info); g_ctx->GetDirector().Archive(arc); }
+                // what a host archives: its persistent script objects, then the director
+                { Archiver arc = Archiver::CreateWrite(os, info); arc.ArchiveObject(*g_ctx->GetLevel()); arc.ArchiveObject(*g_ctx->GetGame()); g_ctx->GetDirector().Archive(arc); }
                 g_archive = os.str();
             } else if (op == "load") {
                 if (g_archive.empty()) { say("bad-op"); continue; }
                 g_ctx->GetDirector().Reset();
                 imemstream is(g_archive.data(), g_archive.size());
                 version_info_t info; info.header = "VRIF"; info.version = 1; info.archiveName = "verif";
-                { Archiver arc = Archiver::CreateRead(is, info); g_ctx->GetDirector().Archive(arc); }
+                { Archiver arc = Archiver::CreateRead(is, info); arc.ArchiveObject(*g_ctx->GetLevel()); arc.ArchiveObject(*g_ctx->GetGame()); g_ctx->GetDirector().Archive(arc); }
             } else {
                 status = "bad-op";
             }
@@ -294,7 +304,7 @@ int main()
         if (status == "bad-op") { say("bad-op"); continue; }
         say(status + " out=" + takeOut() + extra + trailer());
     }
-    g_lastEvent.reset();
+    g_events.clear();
     g_ctx.reset();
     return 0;
 }
